@@ -34,7 +34,7 @@ const hcDomain = "hc.probe.test."
 
 var allStates = []string{
 	"up", "up", "up", "silent", "refuse", "close", "wrong-id", "wrong-name", "wrong-type", "two-questions",
-	"tc-then-tcp", "garbage", "short", "cut", "ancount", "servfail", "nxdomain", "dup",
+	"tc-then-tcp", "garbage", "short", "cut", "ancount", "servfail", "nxdomain", "dup", "error-without-question",
 }
 
 func classOf(state string) string {
@@ -253,6 +253,16 @@ func (u *upstream) reply(req *dns.Msg, tr string) (raw [][]byte, closeAfter bool
 		b[7] = 2 // ANCOUNT=2, no records
 
 		return [][]byte{b}, false
+	case "error-without-question":
+		// An error reply that does not echo the question (long enough to
+		// pass the reader's minimum thanks to an OPT record): whose question
+		// it answers cannot be told.
+		m := good()
+		m.Question, m.Answer = nil, nil
+		m.Rcode = dns.RcodeRefused
+		m.SetEdns0(1232, false)
+
+		return [][]byte{pack(m)}, false
 	case "servfail":
 		m := good()
 		m.Rcode = dns.RcodeServerFailure
